@@ -97,3 +97,39 @@ func checkDeterminism(g *Runner, sum *Summary) {
 		}
 	}
 }
+
+// detWitness: a fixed history in which one EndBlock issues requests of several contexts to
+// three providers of one service, so that the EndBlocker's provider->requests Go map has
+// several entries when it is traversed (generated histories rarely reach that: measured 0 of
+// 31 issuing blocks in 40 histories had two providers), followed by responses, expiry with
+// slashing, a second batch and an export.
+func detWitness(id int) *History {
+	h := &History{ID: id, Name: "det-witness", Seed: 0, CfgIdx: 1}
+	for _, o := range ownerAtoms {
+		h.Funding = append(h.Funding, [2]int64{o, 50000000})
+	}
+	for _, c := range consumerAtoms {
+		h.Funding = append(h.Funding, [2]int64{c, 1000000})
+	}
+	price := func(p string) PricingArg { return PricingArg{Kind: "P", Price: p, Denom: denom} }
+	dep := func(n int64) CoinsArg { return CoinsArg{Kind: "B", Amt: n} }
+	provs := []int64{121, 126, 127}
+	h.Ops = append(h.Ops, Op{Kind: "define", Svc: 1, Content: 1, Owner: 101})
+	for i, p := range provs {
+		h.Ops = append(h.Ops, Op{Kind: "bind", Svc: 1, Prov: p, Owner: 101 + int64(i%2), Pr: price([]string{"10", "7", "3"}[i]), Dep: dep(1000), QoS: 1})
+	}
+	h.Ops = append(h.Ops, Op{Kind: "setwd", Owner: 101, Addr: 131})
+	for i, c := range consumerAtoms {
+		h.Ops = append(h.Ops, Op{Kind: "call", Tx: uint64(5000 - i), Idx: int64(i), Svc: 1, Provs: provs, Cons: c, Input: int64(i + 1), InputOK: true,
+			Dep: dep(1000), Timeout: 2, Rep: true, Freq: 2, Total: -1})
+	}
+	h.Ops = append(h.Ops, Op{Kind: "endblock", Dt: int64(5e9)})
+	h.Ops = append(h.Ops, Op{Kind: "respond", Tx: 5000, Idx: 0, Batch: 1, RHeight: height0, RIndex: 0, Who: 121, Code: 200, Out: 1, OutValid: true})
+	h.Ops = append(h.Ops, Op{Kind: "respond", Tx: 4999, Idx: 1, Batch: 1, RHeight: height0, RIndex: 1, Who: 126, Code: 200, Out: 2, OutValid: false})
+	h.Ops = append(h.Ops, Op{Kind: "export"})
+	for i := 0; i < 3; i++ {
+		h.Ops = append(h.Ops, Op{Kind: "endblock", Dt: int64(5e9)})
+	}
+	h.Ops = append(h.Ops, Op{Kind: "export"})
+	return h
+}
